@@ -6,7 +6,8 @@ without an output buffer of a few or many bytes), the terminal's replies to the 
 late - after the program has already set controls - or absent; consistent with the VT's initial state
 named on the `new` line), then control settings (valid, redundant, repeated, a labelled minority invalid),
 pens (palette colours with and without RGB8 refinements, often a small variation of the previous pen),
-text, pause/resume cycles, other holders taking and dropping references to the terminal, and an ending in
+text, pause/resume cycles (one in three with control settings, pen changes and text between pause and resume, or
+between pause and an ending without resume), other holders taking and dropping references to the terminal, and an ending in
 teardown and/or destruction.  Histories that contain a trigger of a finding already recorded for the
 unrepaired tree are placed after the others, so that the framework's cap on examined failing histories never
 hides a new failure behind known ones.
@@ -185,16 +186,16 @@ class Hist:
         elif r < 0.80:
             self.add("pause")
             x = rng.random()
-            if x < 0.10:     # out of contract: something between pause and resume
-                if self.pending and x < 0.05:
-                    self.deliver(1)      # a reply while libtermkey is stopped waits in its buffer
-                else:
-                    self.ctl()
-                stat["contract:op-while-paused"] += 1
-            if x < 0.93:
+            if x < 0.35:     # the program goes on using the terminal between pause and resume
+                for _ in range(rng.choice([1, 1, 2, 3])):
+                    self.paused_op()
+                stat["paused:ops-before-resume-or-end"] += 1
+            if rng.random() < (0.75 if x < 0.35 else 0.93):
                 self.add("resume")
             else:
                 self.ended_paused = True
+                if x < 0.35:
+                    stat["paused:ops-then-end-without-resume"] += 1
         elif r < 0.84:
             self.add(f"setstr {rng.choice(['title_text', 'icon_text', 'icontitle_text', 'title_text', 'mouse', '#7'])} {hexs(rng.choice(['title here', 'x', 'a;b c']))}")
         elif r < 0.87:
@@ -215,6 +216,28 @@ class Hist:
                 self.add("termref"); self.extra += 1
         elif self.kind != "term" and r < 0.99:
             self.tick()
+        else:
+            self.ctl()
+
+    def paused_op(self):
+        """A control setting, a pen change, text, a title or a reply of the terminal while the terminal is paused."""
+        r = rng.random()
+        if r < 0.5:
+            self.ctl()
+        elif r < 0.7:
+            p = pen(self.prevpen)
+            self.prevpen = p
+            self.add(f"{rng.choice(['setpen', 'setpen', 'chpen'])} {p}")
+            if rng.random() < 0.7:
+                self.add(f"print {rng.choice(TEXTS)}")
+        elif r < 0.8:
+            self.add(f"print {rng.choice(TEXTS)}")
+        elif r < 0.87:
+            self.add(f"setstr title_text {hexs('paused')}")
+        elif r < 0.93 and self.pending:
+            self.deliver(1)      # a reply while libtermkey is stopped waits in its buffer
+        elif r < 0.96:
+            self.add("flush")
         else:
             self.ctl()
 
@@ -367,6 +390,8 @@ else:
             score += 1
         if "termref" in ls:
             score += 1
+        if any(l == "pause" and not n.startswith(("resume", "teardown", "unref", "termunref")) for l, n in zip(ls, ls[1:])):
+            score += 1        # the program goes on between pause and resume / the end
         if "vis=0" in ls[0] and "reply mode 25 2" in ls:
             score += 1
         firstreply = next((i for i, l in enumerate(ls) if l.startswith("reply")), len(ls))
